@@ -82,6 +82,13 @@ def plan(tier, seed):
             if (fam.SUPPORTED[cls_name](*s) and max(s) > B and s not in extra
                     and fam.n_estimate(cls_name, s) <= N_MAX[tier]):
                 extra.append(s)
+        # needle / slab shapes beyond the bound (found HollowRhombic's
+        # one-layer-hole defect; enumerated, not sampled)
+        nd = [s for s in fam.needle_sizes(cls_name,
+                                          8 if tier == 'quick' else 12)
+              if s not in sizes and s not in extra
+              and fam.n_estimate(cls_name, s) <= N_MAX[tier]]
+        extra = extra + nd
         for s in sizes + extra:
             tasks.append({'cls': cls_name, 'size': list(s),
                           'beyond_bound': s in extra,
